@@ -64,14 +64,41 @@ type c08env struct {
 	factNo   map[string]int
 }
 
-func c08new(gated bool) (*c08env, error) {
+// a ballot pool whose reads work and whose writes fail from the `okWrites`-th write on (a full disk)
+type c08failingPool struct {
+	isaac.BallotPool
+	mu       sync.Mutex
+	okWrites int
+}
+
+func (p *c08failingPool) SetBallot(bl base.Ballot) (bool, error) {
+	p.mu.Lock()
+	left := p.okWrites
+	if p.okWrites > 0 {
+		p.okWrites--
+	}
+	p.mu.Unlock()
+	if left <= 0 {
+		return false, fmt.Errorf("no space left on device")
+	}
+	return p.BallotPool.SetBallot(bl)
+}
+
+func c08new(gated bool) (*c08env, error) { return c08newPool(gated, -1) }
+
+// okWrites < 0: a healthy pool
+func c08newPool(gated bool, okWrites int) (*c08env, error) {
 	env, err := c19newEnv()
 	if err != nil {
 		return nil, err
 	}
-	pool, err := isaacdatabase.NewTempPool(leveldbstorage.NewMemStorage(), env.encs, env.enc, 0)
+	tpool, err := isaacdatabase.NewTempPool(leveldbstorage.NewMemStorage(), env.encs, env.enc, 0)
 	if err != nil {
 		return nil, err
+	}
+	var pool isaac.BallotPool = tpool
+	if okWrites >= 0 {
+		pool = &c08failingPool{BallotPool: tpool, okWrites: okWrites}
 	}
 	e := &c08env{env: env, local: base.RandomLocalNode(), factNo: map[string]int{}}
 	for i := 0; i < 4; i++ {
@@ -132,6 +159,68 @@ func (e *c08env) ballot(node base.LocalNode, point base.Point, no int, prev util
 	avp := isaac.NewACCEPTVoteproof(afact.Point().Point)
 	avp.SetMajority(afact).SetSignFacts([]base.BallotSignFact{asf}).SetThreshold(base.Threshold(100)).Finish()
 	return isaac.NewINITBallot(avp, sf, nil)
+}
+
+// a suffrage-confirm INIT ballot of `node`: fact number `no` picks the expel facts (sync sources that disagree on them)
+func (e *c08env) scBallot(node base.LocalNode, point base.Point, no int, prev, proposal util.Hash, expels map[int]util.Hash) base.Ballot {
+	if _, ok := expels[no]; !ok {
+		expels[no] = valuehash.RandomSHA256()
+	}
+	fact := isaac.NewSuffrageConfirmBallotFact(point, prev, proposal, []util.Hash{expels[no]})
+	e.factNo[fact.Hash().String()] = no
+	sf := isaac.NewINITBallotSignFact(fact)
+	_ = sf.NodeSign(node.Privatekey(), hNetworkID, node.Address())
+	return isaac.NewINITBallot(nil, sf, nil)
+}
+
+// 3. one delivery after the other: plain and suffrage-confirm ballots of one point, over a healthy pool and over a
+// pool whose writes fail
+func c08sequences(c *Ctx) error {
+	n := 150
+	if c.Thorough() {
+		n = 3000
+	}
+	for i := 0; i < n; i++ {
+		okWrites := -1
+		if c.Chance(1, 3) {
+			okWrites = c.Intn(3)
+		}
+		e, err := c08newPool(false, okWrites)
+		if err != nil {
+			return err
+		}
+		point := base.NewPoint(base.Height(int64(33+c.Intn(10))), base.Round(uint64(c.Intn(2))))
+		prev, proposal := valuehash.RandomSHA256(), valuehash.RandomSHA256()
+		proposals, expels := map[int]util.Hash{1: proposal}, map[int]util.Hash{}
+		k := 2 + c.Intn(4)
+		var desc []string
+		for j := 0; j < k; j++ {
+			no := 1 + c.Intn(3)
+			node := e.others[j%len(e.others)]
+			if c.Chance(2, 5) {
+				desc = append(desc, fmt.Sprintf("sc%d", no))
+				e.mimic(e.scBallot(node, point, no, prev, proposal, expels))
+			} else {
+				desc = append(desc, fmt.Sprintf("i%d", no))
+				e.mimic(e.ballot(node, point, no, prev, proposals))
+			}
+		}
+		time.Sleep(500 * time.Microsecond)
+		e.mu.Lock()
+		sent := append([]string{}, e.sent...)
+		e.mu.Unlock()
+		c.Eval(1)
+		pooldesc := "healthy pool"
+		if okWrites >= 0 {
+			pooldesc = fmt.Sprintf("pool whose writes fail after %d", okWrites)
+		}
+		c.Count("sequences", map[bool]string{true: "healthy-pool", false: "failing-pool"}[okWrites < 0])
+		c.Count("sequence-sent", fmt.Sprint(len(sent)))
+		c08oracle(c, sent, fmt.Sprintf("deliveries %v one after the other (i = INIT, sc = suffrage confirm, number = fact), %s", desc, pooldesc),
+			map[string]interface{}{"deliveries": desc, "ok_writes": okWrites})
+		c.Nontrivial(fmt.Sprintf("seq %v %d", desc, okWrites))
+	}
+	return nil
 }
 
 func runC08(c *Ctx) error {
@@ -288,7 +377,7 @@ func runC08(c *Ctx) error {
 		c.Count("free-running", fmt.Sprintf("deliveries-%d", k))
 		c08oracle(c, sent, fmt.Sprintf("%d concurrent deliveries %v", k, desc), map[string]interface{}{"deliveries": desc})
 	}
-	return nil
+	return c08sequences(c)
 }
 
 // at most one fact per (stage point, suffrage-confirm flag) ever reaches the network
